@@ -122,7 +122,7 @@ def sanitize_desc_lines(lines, in_tags=False):
     for i, l in enumerate(lines):
         s = l.strip()
         low = s.lower()
-        bad = (s.startswith('@') or s.startswith('(') or
+        bad = (s.startswith('@') or s.startswith('(') or s.startswith(':') or
                any(low.startswith(t) and ':' in low[len(t):len(t) + 3] for t in (
                    'returns', 'return', 'since', 'deprecated', 'stability', 'description', 'attributes', 'rename to',
                    'transfer', 'type', 'value', 'virtual', 'ref func', 'unref func', 'get value func', 'set value func',
